@@ -73,6 +73,14 @@ proof fn lemma_parse_wire(s: Seq<(u16, Seq<u8>)>, prev: int, pre: Seq<u8>, tail:
         assert(b =~= pre2 + rest_w + tail);
         lemma_parse_wire(s.drop_first(), s[0].0 as int, pre2, tail);
         assert(pre2.len() == p3 + len);
+        // the grammar's own steps at idx, spelled out (keeps the query small and independent of the solver's seed)
+        let dn = nib(delta); let ln = nib(len);
+        assert((b[idx] as int) / 16 == dn && (b[idx] as int) % 16 == ln && dn != 15 && ln != 15 && b[idx] != 0xFF);
+        let p2 = idx + 1 + ext_len(dn);
+        assert(p3 == p2 + ext_len(ln));
+        assert(ext_val(b, idx + 1, dn) == delta && ext_val(b, p2, ln) == len);
+        assert(p3 + len <= b.len() && prev + delta == s[0].0 as int);
+        assert(parse_opts(b, p3 + len, prev + delta) == Some((s.drop_first(), payload_of(tail))));
         assert(seq![((prev + delta) as u16, b.subrange(p3, p3 + len))] + s.drop_first() =~= s);
     }
 }
